@@ -3,7 +3,10 @@ package sut
 import (
 	"fmt"
 	"net"
+	"os"
+	"runtime"
 	"strconv"
+	"strings"
 	"time"
 
 	"verifharness/resp"
@@ -61,7 +64,7 @@ func (c *Conn) Send(b []byte) error {
 // ReadValue reads exactly one complete RESP value (strict), waiting up to the timeout.
 // ok=false with err=nil means time-out with an incomplete or empty buffer (the partial bytes stay buffered).
 func (c *Conn) ReadValue(timeout time.Duration) (resp.Value, []byte, error) {
-	deadline := time.Now().Add(timeout)
+	deadline := time.Now().Add(Patience(timeout))
 	tmp := make([]byte, 65536)
 	for {
 		if len(c.buf) > 0 {
@@ -156,3 +159,33 @@ func (c *Conn) Do(args ...string) Reply {
 
 // Close closes the connection.
 func (c *Conn) Close() { _ = c.C.Close() }
+
+// Patience stretches a verdict time-out (one second or more) when the machine is overloaded: a reply that is
+// late because sixteen cores serve a hundred runnable processes is not a missing reply. Short polling
+// time-outs are left alone. The factor grows with the load average per core, up to 15.
+func Patience(d time.Duration) time.Duration {
+	if d < time.Second {
+		return d
+	}
+	b, err := os.ReadFile("/proc/loadavg")
+	if err != nil {
+		return d
+	}
+	f := strings.Fields(string(b))
+	if len(f) == 0 {
+		return d
+	}
+	load, err := strconv.ParseFloat(f[0], 64)
+	if err != nil {
+		return d
+	}
+	perCore := load / float64(runtime.NumCPU())
+	if perCore < 1 {
+		return d
+	}
+	factor := 1 + 2*perCore
+	if factor > 15 {
+		factor = 15
+	}
+	return time.Duration(float64(d) * factor)
+}
